@@ -132,7 +132,7 @@ Definition split_qname (s : str) : qname :=
   match s with
   | 123 :: r =>
       match text_split c_rbrace r with
-      | (Some (_ :: _ as lf), rt) => (Some lf, rt)
+      | (Some ((_ :: _) as lf), rt) => (Some lf, rt)
       | _ => (None, s)
       end
   | _ => (None, s)            (* the empty string raises IndexError in Python; never an event name *)
@@ -141,7 +141,7 @@ Definition split_qname (s : str) : qname :=
 (* build_qname(uri, tag) for a non-empty tag *)
 Definition build_qname (q : qname) : str :=
   match fst q with
-  | Some (_ :: _ as u) => [c_lbrace] ++ u ++ [c_rbrace] ++ snd q
+  | Some ((_ :: _) as u) => [c_lbrace] ++ u ++ [c_rbrace] ++ snd q
   | _ => snd q
   end.
 
@@ -152,7 +152,7 @@ Definition enc_qname (m : nsmap) (q : qname) : str * nsmap :=
   | (None, tag) => (tag, m)
   | (Some u, tag) =>
       let (p, m') := load_prefix u m in
-      (match p with Some (_ :: _ as p') => p' ++ [c_colon] ++ tag | _ => tag end, m')
+      (match p with Some ((_ :: _) as p') => p' ++ [c_colon] ++ tag | _ => tag end, m')
   end.
 Definition enc_atom (m : nsmap) (a : atom) : str * nsmap :=
   match a with
@@ -178,7 +178,7 @@ Definition q_xsi_type_m : qname := split_qname qn_xsi_type.
 Definition q_xsi_nil_m : qname := (Some xsi_uri, xsi_nil_local).
 Definition is_xsi_type (q : qname) (v : wvalue) : bool :=
   match v with
-  | VAtom (AText (123 :: _ as s)) =>
+  | VAtom (AText ((123 :: _) as s)) =>
       qname_eqb q q_xsi_type_m || existsb (str_eqb s) datatype_qnames
   | _ => false
   end.
@@ -235,7 +235,7 @@ Definition set_map (s : wstate) (m : nsmap) : wstate :=
 (* add_namespace *)
 Definition add_namespace (u : option str) (m : nsmap) : nsmap :=
   match u with
-  | Some (_ :: _ as u') => if prefix_exists u' m then m else snd (generate_prefix u' m)
+  | Some ((_ :: _) as u') => if prefix_exists u' m then m else snd (generate_prefix u' m)
   | _ => m
   end.
 
@@ -284,7 +284,7 @@ Definition set_data (v : wvalue) (s : wstate) : wres :=
   let (enc, m) := encode_data (w_map s) v in
   let (s1, out) := flush_start (match enc with None => true | Some _ => false end) (set_map s m) in
   match enc with
-  | Some (_ :: _ as txt) =>
+  | Some ((_ :: _) as txt) =>
       if w_in_tail s1 then
         ({| w_parents := w_parents s1; w_open := w_open s1; w_map := w_map s1; w_pending := None;
             w_attrs := w_attrs s1; w_in_tail := true; w_tail := Some txt; w_pp := w_pp s1 |}, out, None)
@@ -299,7 +299,7 @@ Definition set_data (v : wvalue) (s : wstate) : wres :=
 
 Definition end_tag (q : qname) (s : wstate) : wres :=
   let (s1, out0) := flush_start true s in
-  let out1 := out0 ++ [SEndElem q] ++ (match w_tail s1 with Some (_ :: _ as t) => [SChars t] | _ => [] end) in
+  let out1 := out0 ++ [SEndElem q] ++ (match w_tail s1 with Some ((_ :: _) as t) => [SChars t] | _ => [] end) in
   if negb (w_open s1) then (s1, out1, Some PyIndexError)            (* ns_context.pop() on [] *)
   else
     let '(parents, open, m) :=
@@ -382,11 +382,11 @@ Definition ninit : nstate := {| n_saved := []; n_cur := []; n_undecl := []; n_pe
 Definition sax_xml_ns : str := ns_xml.
 Definition n_qname (c : nctx) (q : qname) : option str :=           (* None = KeyError *)
   match fst q with
-  | Some (_ :: _ as u) =>
+  | Some ((_ :: _) as u) =>
       if str_eqb sax_xml_ns u then Some (s_xml ++ [c_colon] ++ snd q)
       else match nc_get c u with
            | None => None
-           | Some (Some (_ :: _ as p)) => Some (p ++ [c_colon] ++ snd q)
+           | Some (Some ((_ :: _) as p)) => Some (p ++ [c_colon] ++ snd q)
            | Some _ => Some (snd q)
            end
   | _ => Some (snd q)
@@ -480,7 +480,7 @@ Definition linit : lstate :=
 Definition l_build_tag (d : option str) (q : qname) : qname :=
   match fst q with
   | Some (_ :: _) => q
-  | _ => match d with Some (_ :: _ as u) => (Some u, snd q) | _ => (None, snd q) end
+  | _ => match d with Some ((_ :: _) as u) => (Some u, snd q) | _ => (None, snd q) end
   end.
 
 (* the domain on which lxml's own validation (tag/attribute names, prefixes, namespace
@@ -523,7 +523,10 @@ Definition l_add_kid (k : inode) (s : lstate) : lstate + perr :=
 Definition lstep (s : lstate) (c : sax) : lstate + perr :=
   match c with
   | SStartPrefix p u =>
-      if l_prefix_ok p && l_uri_ok u then
+      if ostr_eqb p (Some s_xml) && str_eqb u ns_xml then
+        (* libxml2 knows the xml prefix; declaring it again has no effect *)
+        inl s
+      else if l_prefix_ok p && l_uri_ok u && negb (str_eqb u ns_xml) && negb (str_eqb u ns_xmlns) then
         inl {| l_default := match p with None => Some u | Some _ => l_default s end;
                l_dstack := match p with None => Some u :: l_dstack s | Some _ => l_dstack s end;
                l_new := nm_set (l_new s) p u; l_stack := l_stack s; l_root := l_root s |}
